@@ -103,7 +103,10 @@ func validateContractRenewal(existing types.FileContractRevision, renewal types.
 		return types.ZeroCurrency, types.ZeroCurrency, types.ZeroCurrency, errors.New("incorrect unlock hash")
 	}
 
-	expectedBurn := baseHostRevenue.Add(baseRiskedCollateral)
+	expectedBurn, overflow := baseHostRevenue.AddWithOverflow(baseRiskedCollateral)
+	if overflow {
+		return types.ZeroCurrency, types.ZeroCurrency, types.ZeroCurrency, errors.New("expected host burn overflows")
+	}
 	hostBurn, underflow := renewal.ValidHostPayout().SubWithUnderflow(renewal.MissedHostPayout())
 	if underflow {
 		return types.ZeroCurrency, types.ZeroCurrency, types.ZeroCurrency, errors.New("host valid payout must be greater than host missed payout")
